@@ -377,6 +377,57 @@ func (r *runner) checkpoint(o *opJ) {
 	r.flushedAtCkpt = sstCount(r.c.WorkDir()) > 0
 }
 
+// finalWait is wait with the generous deadline of the final phase: nothing there may be decided by a short time-out (only a
+// really wedged cluster runs into it; then the supervisor restart / "not completed" path is taken).
+func (r *runner) finalWait(cond func(l *clusterlib.Log) bool) bool {
+	t := 20 * time.Second
+	if incomplete.Load() >= 4 {
+		t = shortTimeout
+	}
+	return r.c.Await(cond, t)
+}
+
+// fireRemainingTimers makes every timer still pending due and returns only when all firings have been applied: event time is
+// advanced past every timer, every runner hands a watermark to its event loop (rendezvous), and then a checkpoint of OUR
+// OWN is started and published - its barriers travel behind those watermarks in every runner->operator channel and an
+// operator flushes its pending batch (the TimerExpired events) before it cuts. A refused start (an older checkpoint is
+// still completing) is retried, never replaced by a time-based guess.
+func (r *runner) fireRemainingTimers() bool {
+	r.sc.Advance()
+	if !r.finalWait(r.readAllCond()) {
+		return false
+	}
+	if d, ok := r.c.TickWatermarksTimed(); !ok {
+		return false
+	} else if d > 50*time.Millisecond {
+		r.tags["watermark-tick-took>50ms"] = true
+	}
+	deadline := time.Now().Add(20 * time.Second)
+	var id uint64
+	for {
+		before := len(r.c.Log().Started)
+		err := r.c.TriggerCheckpoint()
+		if st := r.c.Log().Started; err == nil && len(st) > before {
+			id = st[len(st)-1]
+			break
+		}
+		r.tags["final-barrier-retried"] = true
+		if time.Now().After(deadline) || !r.running() || incomplete.Load() >= 4 {
+			return false
+		}
+		n := len(r.c.Log().Published)
+		r.c.Await(func(l *clusterlib.Log) bool { return len(l.Published) > n }, 50*time.Millisecond) // an older checkpoint completing
+	}
+	return r.finalWait(func(l *clusterlib.Log) bool {
+		for _, p := range l.Published {
+			if p.ID == id && p.Done {
+				return true
+			}
+		}
+		return !r.running()
+	}) && r.running()
+}
+
 // outage injects a transient storage read outage, lets more input flow, and restarts the whole cluster (like a supervisor)
 // if a worker stopped because of it.
 func (r *runner) outage(o *opJ) {
@@ -612,10 +663,20 @@ func (eng) execute(mode string, c *hx.Case) (*hx.Result, error) {
 			if timersOn && r.running() {
 				// everything read so far is applied first: the operator handles a watermark at once but keeps records in its
 				// pending batch, so a watermark would overtake them and their timers would be dropped as late (docs/C01.md)
-				r.wait(func(l *clusterlib.Log) bool { return r.readAllCond()(l) && r.drainedCond()(l) })
+				// If that cannot be established the op is skipped altogether: a bounded wait must never decide that "everything
+				// is applied" (a watermark sent too early makes on-time timers late, see "False alarms / flakes").
+				if !r.wait(func(l *clusterlib.Log) bool { return r.readAllCond()(l) && r.drainedCond()(l) }) {
+					r.tags["advance-skipped"] = true
+					break
+				}
 				sc.Advance()
-				r.wait(r.readAllCond())
-				cl.TickWatermarks()
+				if !r.wait(r.readAllCond()) {
+					r.tags["advance-tick-skipped"] = true // the markers are in; the next advance sends the watermarks
+					break
+				}
+				if d, _ := cl.TickWatermarksTimed(); d > 50*time.Millisecond {
+					r.tags["watermark-tick-took>50ms"] = true
+				}
 				r.tags["watermark-advanced"] = true
 			}
 		case "settle": // let pending memtable flushes finish (so that the next checkpoint holds state in table files)
@@ -636,31 +697,9 @@ func (eng) execute(mode string, c *hx.Case) (*hx.Result, error) {
 	for attempt := 0; attempt < 2 && !completed; attempt++ {
 		r.stalled = false
 		allApplied := func(l *clusterlib.Log) bool { return r.readAllCond()(l) && r.drainedCond()(l) }
-		ok := r.running() && r.wait(allApplied)
+		ok := r.running() && r.finalWait(func(l *clusterlib.Log) bool { return allApplied(l) || !r.running() }) && r.running()
 		if ok && timersOn {
-			// every timer still pending becomes due; a checkpoint is the barrier behind which all firings have been applied
-			sc.Advance()
-			ok = r.wait(r.readAllCond())
-			if ok {
-				cl.TickWatermarks()
-				before := len(cl.Log().Started)
-				if err := cl.TriggerCheckpoint(); err == nil {
-					if st := cl.Log().Started; len(st) > before {
-						id := st[len(st)-1]
-						ok = r.wait(func(l *clusterlib.Log) bool {
-							for _, p := range l.Published {
-								if p.ID == id && p.Done {
-									return true
-								}
-							}
-							return false
-						})
-					} else {
-						r.tags["final-barrier-refused"] = true
-						cl.Await(func(*clusterlib.Log) bool { return false }, 20*time.Millisecond) // fires batch time-outs for a while
-					}
-				}
-			}
+			ok = r.fireRemainingTimers()
 		}
 		if ok {
 			// probes: one per key, appended now that everything else has been applied
@@ -668,7 +707,7 @@ func (eng) execute(mode string, c *hx.Case) (*hx.Result, error) {
 				sc.Append(k%sc.NumSplits(), clusterlib.Record{ID: uint32(1000000 + attempt*1000 + k), Key: keyBytes(k), Probe: true})
 			}
 			sc.AllowAll()
-			ok = r.wait(allApplied)
+			ok = r.finalWait(func(l *clusterlib.Log) bool { return allApplied(l) || !r.running() }) && r.running()
 		}
 		if ok {
 			completed = true
@@ -685,7 +724,11 @@ func (eng) execute(mode string, c *hx.Case) (*hx.Result, error) {
 			break
 		}
 		cl.StartWorkers(r.w)
-		if !cl.AwaitRunning(gb, r.timeout()) {
+		rt := 20 * time.Second
+		if incomplete.Load() >= 4 {
+			rt = shortTimeout
+		}
+		if !cl.AwaitRunning(gb, rt) {
 			break
 		}
 	}
